@@ -1,11 +1,12 @@
 (* case type for the differential test of the Go-stdlib models (path.Clean, strings helpers) *)
-Require Import V.Lib V.GoPath.
+Require Import V.Lib V.GoPath V.GoNet.
 Inductive lcase :=
 | LClean (p obs : bytes)
 | LLower (s obs : bytes)
 | LHasPrefix (s p : bytes) (obs : bool)
 | LHasSuffix (s p : bytes) (obs : bool)
-| LSplit (sep : N) (s : bytes) (obs : list bytes).
+| LSplit (sep : N) (s : bytes) (obs : list bytes)
+| LSplitHostPort (s : bytes) (ok : bool) (h p : bytes).
 Definition ljudge (c : lcase) : N :=
   match c with
   | LClean p obs => verdict (beq (clean p) obs) true
@@ -13,4 +14,8 @@ Definition ljudge (c : lcase) : N :=
   | LHasPrefix s p obs => verdict (Bool.eqb (has_prefix s p) obs) true
   | LHasSuffix s p obs => verdict (Bool.eqb (has_suffix s p) obs) true
   | LSplit sep s obs => verdict (list_beq beq (split sep s) obs) true
+  | LSplitHostPort s ok h p =>
+      verdict (match split_host_port s with
+               | Some (h', p') => ok && beq h h' && beq p p'
+               | None => negb ok end) true
   end.
